@@ -1,0 +1,134 @@
+//! Simulation seams for deterministic-simulation testing.
+//!
+//! This module is compiled only with `--cfg rusty_paseto_verif`. Even then every hook is a
+//! pass-through unless a simulated environment has been installed on the *current thread* with
+//! [`install`], so the crate behaves exactly like the shipped one by default.
+//!
+//! The trait uses only `std` types so that a harness does not need matching `time`/`ring` versions.
+
+use std::cell::RefCell;
+use std::collections::hash_map::RandomState;
+use std::hash::{BuildHasher, Hasher};
+
+/// The simulated environment a harness provides: wall clock, nonce entropy and hash-map seed.
+pub trait SimEnv {
+  /// Called at every wall-clock read; `real_unix_ns` is what the real clock returned. The returned
+  /// value (nanoseconds since the Unix epoch) is what the library will use.
+  fn now(&mut self, real_unix_ns: i128, site: &'static str) -> i128;
+  /// Called after the OS RNG filled `buf`. May record it, overwrite it, or return `false` to make
+  /// the draw fail.
+  fn entropy(&mut self, buf: &mut [u8], site: &'static str) -> bool;
+  /// Seed for the iteration order of the parser's expected-claims map.
+  fn hash_seed(&mut self) -> u64;
+}
+
+thread_local! {
+  static ENV: RefCell<Option<Box<dyn SimEnv>>> = RefCell::new(None);
+}
+
+/// Installs a simulated environment on the current thread, returning the previous one.
+pub fn install(env: Box<dyn SimEnv>) -> Option<Box<dyn SimEnv>> {
+  ENV.with(|e| e.borrow_mut().replace(env))
+}
+
+/// Removes the simulated environment from the current thread.
+pub fn uninstall() -> Option<Box<dyn SimEnv>> {
+  ENV.with(|e| e.borrow_mut().take())
+}
+
+/// True when a simulated environment is installed on this thread.
+pub fn is_installed() -> bool {
+  ENV.with(|e| e.borrow().is_some())
+}
+
+#[cfg(feature = "batteries_included")]
+pub(crate) fn now(real: time::OffsetDateTime, site: &'static str) -> time::OffsetDateTime {
+  ENV.with(|e| match e.borrow_mut().as_mut() {
+    None => real,
+    Some(env) => {
+      let ns = env.now(real.unix_timestamp_nanos(), site);
+      time::OffsetDateTime::from_unix_timestamp_nanos(ns).unwrap_or(real)
+    }
+  })
+}
+
+pub(crate) fn entropy(buf: &mut [u8], site: &'static str) -> Result<(), ring::error::Unspecified> {
+  ENV.with(|e| match e.borrow_mut().as_mut() {
+    None => Ok(()),
+    Some(env) => {
+      if env.entropy(buf, site) {
+        Ok(())
+      } else {
+        Err(ring::error::Unspecified)
+      }
+    }
+  })
+}
+
+/// `BuildHasher` whose key comes from the simulated environment when one is installed and from a
+/// fresh `RandomState` otherwise.
+#[derive(Clone)]
+pub enum SimBuildHasher {
+  /// keyed by the simulator
+  Sim(u64),
+  /// the standard randomised state
+  Std(RandomState),
+}
+
+impl SimBuildHasher {
+  /// Draws the key from the installed environment, or falls back to `RandomState`.
+  pub fn new() -> Self {
+    ENV.with(|e| match e.borrow_mut().as_mut() {
+      None => SimBuildHasher::Std(RandomState::new()),
+      Some(env) => SimBuildHasher::Sim(env.hash_seed()),
+    })
+  }
+}
+
+impl Default for SimBuildHasher {
+  fn default() -> Self {
+    Self::new()
+  }
+}
+
+/// Hasher produced by [`SimBuildHasher`].
+pub enum SimHasher {
+  /// seeded FNV-1a with a final mix
+  Sim(u64),
+  /// std's default hasher
+  Std(<RandomState as BuildHasher>::Hasher),
+}
+
+impl BuildHasher for SimBuildHasher {
+  type Hasher = SimHasher;
+  fn build_hasher(&self) -> SimHasher {
+    match self {
+      SimBuildHasher::Sim(k) => SimHasher::Sim(*k ^ 0xcbf2_9ce4_8422_2325),
+      SimBuildHasher::Std(s) => SimHasher::Std(s.build_hasher()),
+    }
+  }
+}
+
+impl Hasher for SimHasher {
+  fn write(&mut self, bytes: &[u8]) {
+    match self {
+      SimHasher::Sim(state) => {
+        for b in bytes {
+          *state = (*state ^ u64::from(*b)).wrapping_mul(0x0000_0100_0000_01b3);
+        }
+      }
+      SimHasher::Std(h) => h.write(bytes),
+    }
+  }
+  fn finish(&self) -> u64 {
+    match self {
+      SimHasher::Sim(state) => {
+        let mut z = state.wrapping_add(0x9e37_79b9_7f4a_7c15);
+        z = (z ^ (z >> 30)).wrapping_mul(0xbf58_476d_1ce4_e5b9);
+        z = (z ^ (z >> 27)).wrapping_mul(0x94d0_49bb_1331_11eb);
+        z ^ (z >> 31)
+      }
+      SimHasher::Std(h) => h.finish(),
+    }
+  }
+}
